@@ -104,7 +104,7 @@ class C01(HistProp):
     prop = PROP
     skeletons = [sk_expunge_then_delivery, sk_expunge_then_append, sk_expunge_then_copy_in, sk_expunge_while_idling,
                  sk_move_out_selected_twice, sk_move_with_pending_delivery, sk_uid_fetch_behind_expunge, sk_rename_inbox_with_watcher]
-    weights = {"store_del": 10, "expunge": 8, "noop": 10, "deliver": 6, "idle": 4, "move": 5}
+    weights = {"store_del": 10, "expunge": 8, "noop": 10, "deliver": 6, "idle": 4, "move": 5, "deliver_stalled": 2}
     pack_limits = [100, 100, 6]
 
     def nontrivial(self, w):
